@@ -267,9 +267,10 @@ func RunReal(dir string) (ok bool, diag string, panicMsg string) {
 type GenParts struct {
 	Skeleton string
 	Tables   map[string][]int64
-	Order    []string          // table names in file order
-	Funcs    map[string]string // cut function name -> text
-	Consts   string            // first const ( ... ) block if cutConst
+	Idents   map[string][]string // tables whose elements are identifiers (e.g. _lexerModes)
+	Order    []string            // table names in file order
+	Funcs    map[string]string   // cut function name -> text
+	Consts   string              // first const ( ... ) block if cutConst
 }
 
 // SplitGen cuts `var <name> = []T{ ... }` declarations whose name has one of
@@ -277,7 +278,7 @@ type GenParts struct {
 // cutFuncs, out of gofmt-formatted source. Cut regions are replaced by a
 // marker line so that the skeleton still shows where they were.
 func SplitGen(src string, tablePrefixes []string, cutFuncs []string, cutConst bool) (*GenParts, error) {
-	p := &GenParts{Tables: map[string][]int64{}, Funcs: map[string]string{}}
+	p := &GenParts{Tables: map[string][]int64{}, Idents: map[string][]string{}, Funcs: map[string]string{}}
 	lines := strings.Split(src, "\n")
 	var sk strings.Builder
 	constDone := false
@@ -300,10 +301,12 @@ func SplitGen(src string, tablePrefixes []string, cutFuncs []string, cutConst bo
 					var nums []int64
 					isNum := true
 					idents := 0
+					var identLines []string
 					for ; j < len(lines) && lines[j] != "}"; j++ {
 						if strings.TrimSpace(lines[j]) != "" {
 							idents++
 						}
+						identLines = append(identLines, lines[j])
 						for _, f := range strings.Split(lines[j], ",") {
 							f = strings.TrimSpace(f)
 							if f == "" {
@@ -325,6 +328,13 @@ func SplitGen(src string, tablePrefixes []string, cutFuncs []string, cutConst bo
 					} else {
 						// table of identifiers (e.g. _lexerModes): count entries
 						p.Tables[name] = []int64{int64(idents)}
+						for _, l := range identLines {
+							for _, f := range strings.Split(l, ",") {
+								if f = strings.TrimSpace(f); f != "" {
+									p.Idents[name] = append(p.Idents[name], f)
+								}
+							}
+						}
 					}
 					p.Order = append(p.Order, name)
 					sk.WriteString("<<table " + tableClass(name) + ">>\n")
